@@ -513,12 +513,14 @@ void recipeRebuild(RunState& rs) {
     w->makeAlgo();
     bool cellsZero = true;
     uint64_t qseed = sc.schedSeed ^ 0x51;
-    auto doQuery = [&]() {
+    // lookups on the freshly built tree are a pure function of the input (C16, not claimed: class "query"); lookups on a REBUILT tree must
+    // behave like those on a fresh one whatever the tree remembered from before the rebuild (C13: class "rebuild:query")
+    auto doQuery = [&](bool afterRebuild) {
         setStage("query");
         const long wrong = w->query(qseed++);
-        if (wrong) { ctx.addViolation("query", "find", std::to_string(wrong) + " lookups through findGroupWithLeaf/findGroupWithCell gave a wrong answer"); rs.drain("run"); }
+        if (wrong) { ctx.addViolation(afterRebuild ? "rebuild:query" : "query", "find", std::to_string(wrong) + " lookups through findGroupWithLeaf/findGroupWithCell gave a wrong answer" + (afterRebuild ? " after rebuild()" : "")); rs.drain("run"); }
     };
-    doQuery();
+    doQuery(false);
     for (const HistOp& op : sc.history) {
         if (op.op == "move") {
             applyMoves(ctx, w->view(), op);
@@ -530,7 +532,7 @@ void recipeRebuild(RunState& rs) {
             ctx.view = &w->view();
             setStage("rebuild-oracle");
             checkAfterRebuild(rs, *w, before);
-            doQuery();
+            doQuery(true);
             cellsZero = true;
         } else if (op.op == "top") {
             doExecute(rs, *w, op, sc.isTaskBased(), "run");
